@@ -52,6 +52,8 @@ func commandMatrix(K string, full bool) []Op {
 		{"PERSIST", K}, {"TTL", K}, {"PTTL", K}, {"EXPIRETIME", K}, {"PEXPIRETIME", K},
 		{"SORT", K}, {"SORT", K, "ALPHA"}, {"SORT", K, "ALPHA", "DESC"}, {"SORT", K, "ALPHA", "STORE", d}, {"SORT", K, "LIMIT", "0", "1", "ALPHA"}, {"SORT", K, "BY", "nosort"}, {"SORT", "kl", "ALPHA", "STORE", K},
 		{"SORT", "ksrt", "BY", "*", "ALPHA"}, {"SORT", "ksrt", "GET", "*", "ALPHA"}, {"SORT", "ksrt", "BY", "*", "GET", "#", "GET", "*", "ALPHA"}, {"SORT", "ksrt", "GET", "*", "ALPHA", "STORE", "kd"}, {"SORT", "ksrt", "BY", "kh->*", "GET", "kh->f", "ALPHA"},
+		// the destination of STORE is itself read by a GET / BY pattern: the result is built from the old values
+		{"SORT", "ksrt", "GET", "*", "ALPHA", "STORE", "ks"}, {"SORT", "ksrt", "GET", "#", "GET", "*", "ALPHA", "STORE", "ks"}, {"SORT", "ksrt", "BY", "*", "GET", "*", "ALPHA", "DESC", "STORE", "ks"}, {"SORT", "ksrt", "GET", "*", "ALPHA", "LIMIT", "1", "2", "STORE", "kn"}, {"SORT", "ksrt", "GET", "kh->*", "GET", "*", "ALPHA", "STORE", "kh"}, {"SORT", "ksrt", "GET", "*", "ALPHA", "STORE", "ksrt"},
 		{"DUMP", K}, {"KEYS", "*"}, {"KEYS", "k?"}, {"DBSIZE"}, {"RANDOMKEY"}, {"SCAN", "0", "COUNT", "100"}, {"SCAN", "0", "COUNT", "100", "TYPE", "list"}, {"SCAN", "0", "COUNT", "100", "MATCH", "k[lh]"},
 		// failing forms: syntax, range, overflow
 		{"SET", K, "v", "EX", "0"}, {"SET", K, "v", "BOGUS"}, {"SETEX", K, "0", "v"}, {"INCRBY", K, "9223372036854775807"}, {"DECRBY", K, "-9223372036854775808"}, {"SETRANGE", K, "-1", "v"}, {"LSET", K, "7", "v"}, {"LINSERT", K, "MIDDLE", "e", "v"},
@@ -209,6 +211,18 @@ func specC07(tier string) *SeqSpec {
 			}
 		}
 	}
+	// long lifetimes: months and years in every unit (a seeded change of wave 6 clamped millisecond
+	// lifetimes with the limit that is right for seconds)
+	for _, k := range []string{"ks", "kl", "kn"} {
+		for _, cmd := range [][]string{{"PEXPIRE", "15552000000"}, {"PEXPIRE", "315360000000"}, {"PEXPIRE", "9223372036855"}, {"EXPIRE", "15552000"}, {"EXPIRE", "315360000"}, {"EXPIRE", "9223372037"},
+			{"PEXPIREAT", "1909008000000"}, {"PEXPIREAT", "4102444800000"}, {"EXPIREAT", "4102444800"}, {"EXPIREAT", "32503680000"}} {
+			S = append(S, Op{Args: []string{cmd[0], k, cmd[1]}}, Op{Args: []string{cmd[0], k, cmd[1], "GT"}}, Op{Args: []string{cmd[0], k, cmd[1], "LT"}})
+		}
+	}
+	for _, e := range [][]string{{"PX", "15552000000"}, {"PX", "315360000000"}, {"EX", "315360000"}, {"EX", "9223372037"}, {"PXAT", "4102444800000"}, {"EXAT", "32503680000"}} {
+		S = append(S, Op{Args: append([]string{"SET", "ks", "v"}, e...)}, Op{Args: append([]string{"SET", "kn", "v"}, e...)}, Op{Args: append([]string{"GETEX", "ks"}, e...)})
+	}
+	S = append(S, c("PSETEX", "ks", "15552000000", "v"), c("PSETEX", "kn", "315360000000", "v"), c("SETEX", "ks", "315360000", "v"), c("SETEX", "kn", "9223372037", "v"))
 	for _, k := range []string{"ks", "kn"} {
 		for _, e := range [][]string{{"EX", "100"}, {"PX", "100000"}, {"EXAT", "1893457000"}, {"PXAT", "1893457000000"}, {"EXAT", "1000"}, {"PXAT", "1000"}, {"KEEPTTL"}} {
 			S = append(S, Op{Args: append([]string{"SET", k, "v"}, e...)}, Op{Args: append([]string{"SET", k, "v", "XX"}, e...)})
